@@ -78,6 +78,9 @@ def case_strategy(draw: Any) -> Dict[str, Any]:
                         "excl": draw(st.booleans())})
         else:
             ops.append({"op": "settle"})
+        # frames of consecutive operations may share one write (and one read on the server)
+        if ops[-1]["op"] not in ("sleep", "settle") and draw(st.integers(0, 3)) == 0:
+            ops[-1]["join"] = True
     case = {
         "sched": draw(st.integers(0, 999)),
         "init_win": draw(st.sampled_from([None, None, 0, 1, 1000, 20000, 1 << 20])),
@@ -180,8 +183,35 @@ class Ledger:
         self.reset_by_client: set = set()
         self.reset_by_server: Dict[int, int] = {}
         self.pos = 0
+        self.cpos = 0
+        self.conn_wu_seen = 0
+        self.conn_wu_explicit = 0
         self.zero_seen = False
         self.headers_seen: set = set()
+
+    def observe_client(self, tx: bytes) -> None:
+        """Next to the generated operations the h2 library returns connection-level credit by
+        itself for DATA that arrives on streams the client has reset: count the connection
+        WINDOW_UPDATEs the client really sent and add whatever the operations did not."""
+        if self.cpos == 0 and len(tx) >= 24:
+            self.cpos = 24  # the connection preface
+        while self.cpos + 9 <= len(tx):
+            frame, length = Frame.parse_frame_header(memoryview(tx[self.cpos:self.cpos + 9]))
+            if self.cpos + 9 + length > len(tx):
+                break
+            body = memoryview(tx[self.cpos + 9:self.cpos + 9 + length])
+            self.cpos += 9 + length
+            if isinstance(frame, WindowUpdateFrame) and frame.stream_id == 0:
+                frame.parse_body(body)
+                self.conn_wu_seen += frame.window_increment
+        auto = self.conn_wu_seen - self.conn_wu_explicit
+        if auto > 0:
+            self.conn += auto
+            self.conn_wu_explicit += auto
+
+    def credit_conn(self, n: int) -> None:
+        self.conn += n
+        self.conn_wu_explicit += n
 
     def open_stream(self, sid: int) -> None:
         self.stream[sid] = max([self.acked_init] + self.pending)
@@ -232,11 +262,11 @@ class Ledger:
                 if n > self.max_frame:
                     raise Violation("frame_too_large", f"DATA of {n} bytes on stream {sid}, max "
                                     f"frame size {self.max_frame}", **tag)
-                if n > self.stream[sid]:
+                if n > 0 and n > self.stream[sid]:  # (an empty DATA frame uses no credit)
                     raise Violation("stream_window_exceeded", f"DATA of {n} bytes on stream "
                                     f"{sid} whose window allows at most {self.stream[sid]}",
                                     **tag)
-                if n > self.conn:
+                if n > 0 and n > self.conn:
                     raise Violation("connection_window_exceeded", f"DATA of {n} bytes on stream "
                                     f"{sid}; connection window allows at most {self.conn}", **tag)
                 self.stream[sid] -= n
@@ -294,6 +324,8 @@ async def scenario(env: Any, case: Dict[str, Any]) -> Dict[str, Any]:
         await env.settle0()
         client.pump()
         client.unacked = []
+        client.flush()
+        led.observe_client(bytes(getattr(client, "tx", b"")))
         led.consume(bytes(conn.rx))
 
     await absorb()
@@ -311,7 +343,7 @@ async def scenario(env: Any, case: Dict[str, Any]) -> Dict[str, Any]:
             elif kind == "wu_conn":
                 if led.conn + op["n"] > 2**31 - 1:
                     continue
-                led.conn += op["n"]
+                led.credit_conn(op["n"])
                 client.h2.increment_flow_control_window(op["n"])
             elif kind == "settings_win":
                 if any(v + (op["w"] - max([led.acked_init] + led.pending)) > 2**31 - 1
@@ -336,9 +368,12 @@ async def scenario(env: Any, case: Dict[str, Any]) -> Dict[str, Any]:
             raise
         except Exception:
             continue  # the h2 client library refused the operation (stream already closed...)
+        if op.get("join"):
+            continue  # sent together with the next operation's frames
         client.flush()
         await absorb()
     # ---- quiescent point: nothing that could be sent is held back
+    client.flush()  # (a last operation marked "join" has nothing to join)
     await env.settle(60.0)
     await absorb()
     stuck = []
@@ -362,7 +397,7 @@ async def scenario(env: Any, case: Dict[str, Any]) -> Dict[str, Any]:
             break
         try:
             if led.conn < 1 << 20:
-                led.conn += 1 << 20
+                led.credit_conn(1 << 20)
                 client.h2.increment_flow_control_window(1 << 20)
             for s in sids:
                 if led.ended.get(s) or s in led.reset_by_client or s in led.reset_by_server:
